@@ -319,6 +319,58 @@ func runSample() {
 				sampleCase(l, j.dx, j.dy, xf, &rcase{Kind: "sample-fixed", W: int(maxx) + 3, H: int(maxy) + 3, Image: kind})
 			}
 		})
+	// strong perspectives whose vanishing line cuts only the outer HALF-CELL margin of the grid at a
+	// corner: every sample point (cell centres 0.5 .. dim-0.5) is on one side of the line and inside
+	// the image, while the grid's outer corner (0,0) - which is not sampled - is on the other side.
+	// The source quadrilateral is the quadrilateral of the corner cell centres, as the detectors use.
+	type hj struct {
+		dx, dy, corner int
+		c              float64
+	}
+	var hjs []hj
+	for _, d := range [][2]int{{2, 2}, {3, 3}, {3, 2}, {8, 8}, {21, 21}} {
+		for corner := 0; corner < 4; corner++ {
+			for _, c := range []float64{0.25, 0.5, 0.75, 0.9375} {
+				hjs = append(hjs, hj{d[0], d[1], corner, c})
+			}
+		}
+	}
+	horizon := func(j hj) (xform, int, int) {
+		X, Y := float64(j.dx), float64(j.dy)
+		// u, v: coordinates measured from the chosen grid corner; T = ((k u + o)/(u+v-c), (k v + o)/(u+v-c))
+		T := func(x, y float64) (float64, float64) {
+			u, v := x, y
+			if j.corner == 1 || j.corner == 2 {
+				u = X - x
+			}
+			if j.corner >= 2 {
+				v = Y - y
+			}
+			den := u + v - j.c
+			return (40*u + 10.25) / den, (40*v + 10.25) / den
+		}
+		to := [8]float64{0.5, 0.5, X - 0.5, 0.5, X - 0.5, Y - 0.5, 0.5, Y - 0.5}
+		var from [8]float64
+		maxx, maxy := 0.0, 0.0
+		for q := 0; q < 4; q++ {
+			from[2*q], from[2*q+1] = T(to[2*q], to[2*q+1])
+			if from[2*q] > maxx {
+				maxx = from[2*q]
+			}
+			if from[2*q+1] > maxy {
+				maxy = from[2*q+1]
+			}
+		}
+		return xform{"perspective-horizon-in-margin", fmt.Sprintf("corner %d, line u+v=%v", j.corner, j.c), to, from}, int(maxx) + 4, int(maxy) + 4
+	}
+	chk.Range("sampling: strong perspectives whose vanishing line cuts only the outer half-cell margin at one grid corner (4 corners x line positions {1/4, 1/2, 3/4, 15/16} of a cell x 5 grid dimensions; source quadrilateral = corner cell centres) x images {4 kinds} x 3 calls: every cell compared with the exact model", len(hjs),
+		func(i int) string { return fmt.Sprint(hjs[i]) },
+		func(l *mc.Local, i int) {
+			xf, w, h := horizon(hjs[i])
+			for _, kind := range imageKinds {
+				sampleCase(l, hjs[i].dx, hjs[i].dy, xf, &rcase{Kind: "sample-fixed", W: w, H: h, Image: kind})
+			}
+		})
 	chk.Sample("sample", rcase{Kind: "sample", DimX: 3, DimY: 2, Class: "rotate", Src: gridRect(3, 2), Dst: orientedQuad(1, 2, 3, 2, 2.125, 2.375), W: 9, H: 11, Image: "hashA"})
 }
 
